@@ -58,5 +58,16 @@ int main(int argc, char** argv)
 		HttpRequest req(sock);
 		alarm(0); printf("OK method=%s body=%d bytes\n", *req.method(), req.body().length()); return 0;
 	}
+	if (cmd == "battery") {          // the real request parser fed through a socketpair: decoded path never contains "..", query parsing order, odd URLs
+		const char* targets[] = { "/a/../b", "/a/%2e%2e/secret", "/%2E%2E/%2e%2E/etc/passwd", "/a/..%2fb", "/a%00/../secret", "/x/%2e./y", "/x/.%2e/y", "/..", "/a/b/../../../c?q=../z#../f", "/plain/path?x=1", "/a#b?c", "/?", "/#", "/%", "/%4", "/%zz/..", "/a/%252e%252e/b" };
+		for (const char* t : targets) { int fd[2]; if (socketpair(AF_UNIX, SOCK_STREAM, 0, fd) != 0) return 2; std::string rq = std::string("GET ") + t + " HTTP/1.1\r\nHost: h\r\n\r\n";
+			if (write(fd[0], rq.data(), rq.size()) != (ssize_t)rq.size()) return 2; close(fd[0]);
+			Socket sock(fd[1]); HttpRequest req(sock); String p = req.path();
+			for (int i = 0; i + 1 < p.length(); i++) if (p[i] == '.' && p[i + 1] == '.') { printf("REPRODUCED target \"%s\": request.path() still contains \"..\" (length %d)\n", t, p.length()); return 1; } }
+		{ Dic<> q = Url::parseQuery("a=1%26b%3D2&c=%2B+d&e=x%3Dy&f="); if (q.length() != 4 || q["a"] != "1&b=2" || q["c"] != "+ d" || q["e"] != "x=y" || q["f"] != "") { printf("REPRODUCED parseQuery: an encoded '&', '=' or '+' acted as a delimiter / space (a='%s' c='%s' e='%s', %d entries)\n", *q["a"], *q["c"], *q["e"], q.length()); return 1; } }
+		{ const char* urls[] = { "http://h:80/p?q#f", "[/]:80", "http://[::1]:8080/x", "h", "", ":", "//", "http://", "http://h:/", "a:b@c:1/d", "http://h:99999999999/", "x://[", "?", "#", "http://h/p#f?q" };
+		  for (const char* u : urls) { Url x(u); String d = Url::decode(u); (void)x; (void)d; } }
+		printf("OK\n"); return 0;
+	}
 	return 2;
 }
